@@ -396,8 +396,11 @@ fn parse_at_rule(
                             Token::SquareBracketBlock
                             | Token::ParenthesisBlock
                             | Token::Function(_) => {
+                                // a media feature such as `(foo: a.b)` contains no class selector
                                 let close = ss.append_nested_block(next, input);
+                                ss.no_class_selector_depth += 1;
                                 convert_class_names_and_rpx_in_block(input, ss);
+                                ss.no_class_selector_depth -= 1;
                                 ss.append_nested_block_close(close, input);
                             }
                             Token::Semicolon => {
